@@ -81,8 +81,8 @@ func protocolFor(c *Concretizer, o *ROp, cfg *pCfg, req []byte) protocol.Protoco
 	}
 
 	std := 46 // base64url length of a sha2-256 multihash
-	if used == sha2_512 {
-		std = 88
+	if used == sha2_512 || o.Nuv == "reuse_signing_other_alg" || o.Wf == "reuse_other_alg" {
+		std = 88 // the longest regular hash of the request
 	}
 
 	p.MaxOperationHashLength = uint(std + cfg.HashLen)
